@@ -144,7 +144,7 @@ class C10(runner.Check):
   probes = ['probe.overwrite', 'probe.algo-write', 'probe.user-write', 'probe.missing-trial-rejected',
             'probe.algo-missing-trial', 'probe.proto-value', 'probe.proto-default-payload', 'probe.proto-overwrites-proto', 'probe.empty-value', 'restart.clean',
             'probe.ns-roundtrip-checked', 'probe.adversarial-namespace', 'probe.long-lived-handle-read', 'probe.creation-time-metadata', 'probe.completed-through-kept-handle',
-            'probe.kept-trial-handle-read', 'probe.algo-write-via-early-stop']
+            'probe.kept-trial-handle-read', 'probe.algo-write-via-early-stop', 'probe.client-multi-target-delta']
 
   def gen(self, rng, idx, tier):
     cfg = {
@@ -186,7 +186,8 @@ class C10(runner.Check):
     ops = [['CreateStudy', {'o': 0, 'd': 0, 'state': 'ACTIVE', 'md': creation_md() if rng.random() < 0.4 else []}],
            ['SuggestTrials', {'study': ss, 'n': rng.choice([1, 2, 3]), 'worker': 0}]]
     n = rng.randrange(4, 21 if tier == 'quick' else 41)
-    kinds = (['UserStudyMD'] * 4 + ['UserTrialMD'] * 4 + ['RawMD'] * 4 + ['AlgoWrite'] * 4 + ['AlgoWriteES'] * 2
+    kinds = (['UserStudyMD'] * 4 + ['UserTrialMD'] * 4 + ['RawMD'] * 4 + ['RawMDRepeat'] * 2 + ['ClientDeltaMD'] * 3
+             + ['AlgoWrite'] * 4 + ['AlgoWriteES'] * 2
              + ['SuggestTrials'] * 3 + ['CompleteTrial'] * 2 + ['ClientComplete'] * 2
              + ['DeleteTrial', 'CreateTrial', 'CreateTrial', 'Reopen', 'StopTrial'])
     while len(ops) < n:
@@ -198,6 +199,14 @@ class C10(runner.Check):
         ops.append([k, {'study': ss, 'trial': {'pref': rng.choice(['any', 'active', 'completed', 'max', 'missing']), 'i': rng.randrange(8)}, 'items': its}])
       elif k == 'RawMD':
         ops.append([k, {'study': ss, 'items': items(True)}])
+      elif k == 'RawMDRepeat':
+        # a writer re-emitting unchanged per-trial state plus something new for other trials
+        prev = [o for o in ops if o[0] in ('RawMD', 'RawMDRepeat')]
+        base = [dict(it) for it in prev[-1][1]['items']] if prev else []
+        ops.append(['RawMD', {'study': ss, 'items': base + items(False, 0.9)}])
+      elif k == 'ClientDeltaMD':
+        # one MetadataDelta naming the study and several trials, through VizierClient.update_metadata
+        ops.append([k, {'study': ss, 'items': items(rng.random() < 0.4, 0.7) + items(False, 0.0)}])
       elif k == 'AlgoWrite':
         ops.append([k, {'study': ss, 'items': items(rng.random() < 0.25), 'n': rng.choice([1, 2]), 'worker': rng.randrange(2)}])
       elif k == 'AlgoWriteES':
@@ -422,6 +431,34 @@ class C10(runner.Check):
             if factory.delivered:
               writers.add('algo')
               res.bump('probe.algo-write')
+      elif kind == 'ClientDeltaMD':
+        items = resolve_items(op[1]['items'])
+        check_roundtrip(items)
+        delta = vz.MetadataDelta()
+        for it in items:
+          tgt = delta.on_study if it['trial'] is None else delta.on_trials[int(it['trial'])]
+          tgt.abs_ns(vz.Namespace(tuple(it['ns'])))[it['key']] = mk_value(it['value'])
+        dedup = {}
+        for it in items:
+          dedup[(it['trial'], tuple(it['ns']), it['key'])] = it
+        missing = [it['trial'] for it in items if it['trial'] is not None and it['trial'] not in trials_now]
+        try:
+          vizier_client.VizierClient(main, 'unused', sv).update_metadata(delta)
+          ok = True
+        except Exception as e:  # pylint: disable=broad-except
+          ok, err = False, f'{type(e).__name__}: {str(e)[:120]}'
+        res.bump('probe.client-multi-target-delta')
+        if missing:
+          res.bump('probe.missing-trial-rejected')
+          if ok:
+            viol.append(('missing-trial-not-reported', f'client delta naming missing trials {missing} reported no error'))
+          # (and nothing may have changed: the read-back below compares with the unchanged model)
+        elif not ok:
+          viol.append(('user-write-failed', f'client delta: {err}'))
+        else:
+          apply_items(list(dedup.values()))
+          writers.add('user')
+          res.bump('probe.user-write')
       elif kind == 'AlgoWriteES':
         tid = O.resolve_trial(op[1]['trial'], main, view)
         st_now = view.studies.get(main, {}).get('trials', {}).get(tid)
